@@ -259,68 +259,279 @@ func r14_3(c *Ctx, r *Report) {
 	r.check(cmpKeys, rule, "HolidayUtil.Fix finds the insert position by comparing day keys", c.fnPos(fn), "record[:8] < new[:8]")
 }
 
+// workAtoms is one assignment of the abstract inputs of the work/pay decisions.
+type workAtoms struct {
+	holNil, isWork bool
+	week           int64
+}
+
+// workLeaf interprets the three calls the decisions are made of — the holiday record of the day
+// in question, the record's IsWork and the day's weekday — over abstract inputs. isDay tells
+// whether a value (with its frame) is the day in question. Misuse (a lookup for another day,
+// IsWork on a nil record) is reported through problems and leaves the value unevaluable.
+func workLeaf(c *Ctx, isDay func(fr *evalFrame, v ssa.Value) bool, in workAtoms, problems map[string]bool, rest leafX) leafX {
+	return func(fr *evalFrame, v ssa.Value) (interface{}, bool) {
+		if call, ok := v.(*ssa.Call); ok && call.Common().StaticCallee() != nil {
+			switch fname(call.Common().StaticCallee()) {
+			case "HolidayUtil.GetHolidayByYmd":
+				want := []string{"Solar.year", "Solar.month", "Solar.day"}
+				for i, a := range call.Common().Args {
+					ofr, ov := fr.origin(a)
+					recv, f, ok := getterField(c, ov)
+					if !ok || i >= 3 || f != want[i] || !isDay(ofr, recv) {
+						problems["the holiday record is looked up for something other than (year, month, day) of the day in question"] = true
+						return nil, false
+					}
+				}
+				return absPtr{"holiday", in.holNil}, true
+			case "HolidayUtil.(*Holiday).IsWork":
+				h, ok := evalWith(fr, call.Common().Args[0], workLeaf(c, isDay, in, problems, rest))
+				ptr, isP := h.(absPtr)
+				if !ok || !isP || ptr.tag != "holiday" {
+					return nil, false
+				}
+				if ptr.isNil {
+					problems["IsWork is called on a nil record"] = true
+					return nil, false
+				}
+				return in.isWork, true
+			case "calendar.(*Solar).GetWeek":
+				if !isDay(fr, call.Common().Args[0]) {
+					problems["the weekday of another day is consulted"] = true
+					return nil, false
+				}
+				return in.week, true
+			}
+		}
+		if rest != nil {
+			return rest(fr, v)
+		}
+		return nil, false
+	}
+}
+
+// evalWith evaluates v in frame fr with the given leaf function (helpers are evaluated inline).
+func evalWith(fr *evalFrame, v ssa.Value, leaf leafX) (interface{}, bool) {
+	ev := &evaluator{leaf: leaf, inline: inlineLibrary}
+	return ev.eval(fr, v, 0)
+}
+
+// inlineLibrary: unexported and exported library functions with bodies may be read inline by the evaluator.
+func inlineLibrary(callee *ssa.Function) bool {
+	return callee.Pkg != nil && callee.Blocks != nil && strings.HasPrefix(callee.Pkg.Pkg.Path(), "github.com/6tail/lunar-go")
+}
+
 func r14_4(c *Ctx, r *Report) {
 	const rule = "R14.4"
-	r.rule(rule, "Decisions. A day works iff holiday == nil ? weekday not in {0,6} : holiday.IsWork(); the pay rate after the rate-3 cases is 2 when a recorded day is not a make-up day, 2 on an unrecorded weekend, else 1; the workday walk steps by exactly one day per iteration in the sign of n, consults the record of the stepped day itself, and counts only working days.")
-	fn := c.Fn(r, rule, "calendar.(*Solar).Next")
-	if fn != nil {
-		// the loop calls NextDay(add) with add in {1,-1}, GetHolidayByYmd(o.GetYear(), o.GetMonth(), o.GetDay()) on the stepped day
-		stepOK, lookupOK, countOK := false, false, false
-		for _, b := range fn.Blocks {
-			for _, ins := range b.Instrs {
-				call, ok := ins.(*ssa.Call)
-				if !ok || call.Common().StaticCallee() == nil {
-					continue
+	r.rule(rule, "Decisions, read as decision tables over abstract inputs (record absent / make-up day / day off, weekday 0..6, and for the pay rate representative civil and lunar month-day values and the term name): the evaluator follows the branch conditions of the code (helpers inline) for every assignment, no library code runs. A day counts in the workday walk iff record == nil ? weekday not in {0,6} : record.IsWork(), the record and the weekday being those of the stepped day itself, and the walk steps by exactly one day per iteration in the sign of n. The pay rate is 3 on 1/1, 5/1, 10/1-3, lunar 1/1-3, 5/5, 8/15 and Qingming; otherwise 2 when a recorded day is not a make-up day or an unrecorded day is a weekend; else 1.")
+	if fn := c.Fn(r, rule, "calendar.(*Solar).Next"); fn != nil {
+		r14_4_walk(c, r, rule, fn)
+	}
+	if fn := c.Fn(r, rule, "calendar.(*Solar).GetSalaryRate"); fn != nil {
+		r14_4_rate(c, r, rule, fn)
+	}
+}
+
+func r14_4_walk(c *Ctx, r *Report, rule string, fn *ssa.Function) {
+	construct := "calendar.(*Solar).Next walks one day at a time and counts working days"
+	// the counting loop: a header phi compared > 0, decremented by one inside the loop
+	var header *ssa.BasicBlock
+	var counter *ssa.Phi
+	for _, b := range fn.Blocks {
+		iff, ok := b.Instrs[len(b.Instrs)-1].(*ssa.If)
+		if !ok {
+			continue
+		}
+		bo, ok := iff.Cond.(*ssa.BinOp)
+		if !ok {
+			continue
+		}
+		var phi *ssa.Phi
+		if k, isK := constInt(bo.Y); isK && k == 0 && bo.Op == token.GTR {
+			phi, _ = bo.X.(*ssa.Phi)
+		} else if k, isK := constInt(bo.X); isK && k == 0 && bo.Op == token.LSS {
+			phi, _ = bo.Y.(*ssa.Phi)
+		}
+		if phi != nil && phi.Block() == b {
+			header, counter = b, phi
+		}
+	}
+	if header == nil {
+		r.bad(rule, construct, c.fnPos(fn), "no counting loop `for rest > 0` found (undecided = fail)")
+		return
+	}
+	var dec *ssa.BasicBlock
+	var steps []*ssa.Call
+	for _, b := range fn.Blocks {
+		if !header.Dominates(b) || b == header {
+			continue
+		}
+		for _, ins := range b.Instrs {
+			switch x := ins.(type) {
+			case *ssa.BinOp:
+				if k, ok := constInt(x.Y); ok && x.X == ssa.Value(counter) && ((x.Op == token.SUB && k == 1) || (x.Op == token.ADD && k == -1)) {
+					dec = b
 				}
-				switch fname(call.Common().StaticCallee()) {
-				case "calendar.(*Solar).NextDay":
-					if phi, ok := call.Common().Args[1].(*ssa.Phi); ok {
-						vals := map[int64]bool{}
-						for _, e := range phi.Edges {
-							if k, ok := constInt(e); ok {
-								vals[k] = true
-							}
-						}
-						if len(vals) == 2 && vals[1] && vals[-1] {
-							stepOK = true
-						}
-					}
-				case "HolidayUtil.GetHolidayByYmd":
-					var fields []string
-					var recv ssa.Value
-					same := true
-					for _, a := range call.Common().Args {
-						rv, f, ok := getterField(c, a)
-						if !ok {
-							same = false
-							continue
-						}
-						if recv != nil && rv != recv {
-							same = false
-						}
-						recv = rv
-						fields = append(fields, f)
-					}
-					if same && equalStrs(fields, []string{"Solar.year", "Solar.month", "Solar.day"}) {
-						if rc, ok := recv.(*ssa.Call); ok && rc.Common().StaticCallee() != nil && rc.Common().StaticCallee().Name() == "NextDay" {
-							lookupOK = true
-						}
-					}
+			case *ssa.Call:
+				if callee := x.Common().StaticCallee(); callee != nil && fname(callee) == "calendar.(*Solar).NextDay" {
+					steps = append(steps, x)
 				}
 			}
 		}
-		// rest -= 1 only under work
-		for _, b := range fn.Blocks {
-			for _, ins := range b.Instrs {
-				if bo, ok := ins.(*ssa.BinOp); ok && bo.Op == token.SUB {
-					if k, ok := constInt(bo.Y); ok && k == 1 {
-						if phi, ok := bo.X.(*ssa.Phi); ok && phi.Comment == "rest" {
-							// the block is reached only when work is true
-							for _, p := range b.Preds {
-								if iff, ok := p.Instrs[len(p.Instrs)-1].(*ssa.If); ok && p.Succs[0] == b {
-									if wp, ok := iff.Cond.(*ssa.Phi); ok && wp.Comment == "work" {
-										countOK = true
+	}
+	if dec == nil || len(steps) != 1 {
+		r.bad(rule, construct, c.fnPos(fn), fmt.Sprintf("the loop has %d NextDay steps and decrement found: %v (undecided = fail)", len(steps), dec != nil))
+		return
+	}
+	step := steps[0]
+	// the step is the previous stepped day (or the start) moved by +1 / -1
+	stepOK := false
+	if phi, ok := step.Common().Args[1].(*ssa.Phi); ok {
+		vals := map[int64]bool{}
+		other := false
+		for i, e := range phi.Edges {
+			if e == ssa.Value(phi) {
+				continue
+			}
+			k, isK := constInt(e)
+			if !isK || (k != 1 && k != -1) {
+				other = true
+				continue
+			}
+			vals[k] = true
+			// where the step is -1 the count starts at -n, where it is +1 at n
+			if phi.Block() == counter.Block() {
+				init := counter.Edges[i]
+				neg := false
+				if u, isU := init.(*ssa.UnOp); isU && u.Op == token.SUB {
+					init, neg = u.X, true
+				}
+				if _, isP := init.(*ssa.Parameter); !isP || neg != (k == -1) {
+					other = true
+				}
+			}
+		}
+		stepOK = !other && len(vals) == 2
+	}
+	carried := false
+	if phi, ok := step.Common().Args[0].(*ssa.Phi); ok && phi.Block() == header {
+		for _, e := range phi.Edges {
+			if e == ssa.Value(step) {
+				carried = true
+			}
+		}
+	}
+	isDay := func(fr *evalFrame, v ssa.Value) bool {
+		_, o := fr.origin(v)
+		return o == ssa.Value(step)
+	}
+	problems := map[string]bool{}
+	n := 0
+	for _, holNil := range []bool{true, false} {
+		for _, isWork := range []bool{true, false} {
+			for week := int64(0); week < 7; week++ {
+				in := workAtoms{holNil, isWork, week}
+				ev := &evaluator{leaf: workLeaf(c, isDay, in, problems, nil), inline: inlineLibrary}
+				fr := &evalFrame{fn: fn, phiFrom: map[*ssa.BasicBlock]*ssa.BasicBlock{header.Succs[0]: header}}
+				_, outcome := ev.runFrame(fr, header.Succs[0], func(b *ssa.BasicBlock) bool { return b == dec || b == header })
+				want := isWork
+				if holNil {
+					want = week != 0 && week != 6
+				}
+				n++
+				switch outcome {
+				case fmt.Sprintf("stop:%d", dec.Index), fmt.Sprintf("stop:%d", header.Index):
+					counted := outcome == fmt.Sprintf("stop:%d", dec.Index)
+					if counted != want {
+						problems[fmt.Sprintf("record absent=%v, IsWork=%v, weekday %d: the day is counted=%v, expected %v", holNil, isWork, week, counted, want)] = true
+					}
+				default:
+					problems["the loop body could not be followed: "+outcome+" "+ev.fail] = true
+				}
+			}
+		}
+	}
+	var ps []string
+	for k := range problems {
+		ps = append(ps, k)
+	}
+	sort.Strings(ps)
+	r.check(stepOK && carried && len(ps) == 0, rule, construct, c.pos(step.Pos()), fmt.Sprintf("step is +1/-1: %v; each step starts from the previous stepped day: %v; %d abstract cases (record x IsWork x weekday) followed through the loop body; deviations: %v", stepOK, carried, n, headList(ps, 4)))
+}
+
+func r14_4_rate(c *Ctx, r *Report, rule string, fn *ssa.Function) {
+	construct := "calendar.(*Solar).GetSalaryRate is 3 on the seven statutory festivals, 2 on other days off, 1 otherwise"
+	recv := ssa.Value(fn.Params[0])
+	isDay := func(fr *evalFrame, v ssa.Value) bool {
+		ofr, o := fr.origin(v)
+		return o == recv && ofr.parent == nil
+	}
+	problems := map[string]bool{}
+	n := 0
+	for _, sm := range []int64{1, 2, 5, 10} {
+		for _, sd := range []int64{1, 2, 3, 4} {
+			for _, lm := range []int64{1, 2, 5, -5, 8} {
+				for _, ld := range []int64{1, 2, 3, 4, 5, 15} {
+					for _, jq := range []string{"清明", "立春", ""} {
+						for _, hol := range []workAtoms{{true, false, 0}, {false, true, 0}, {false, false, 0}} {
+							for week := int64(0); week < 7; week++ {
+								if len(problems) > 6 {
+									break
+								}
+								in := hol
+								in.week = week
+								var leaf leafX
+								leaf = workLeaf(c, isDay, in, problems, func(fr *evalFrame, v ssa.Value) (interface{}, bool) {
+									if rc, f, ok := getterField(c, v); ok && isDay(fr, rc) {
+										switch f {
+										case "Solar.month":
+											return sm, true
+										case "Solar.day":
+											return sd, true
+										case "Solar.year":
+											return int64(2020), true
+										}
 									}
+									if call, ok := v.(*ssa.Call); ok && call.Common().StaticCallee() != nil {
+										name := fname(call.Common().StaticCallee())
+										switch name {
+										case "calendar.(*Solar).GetLunar":
+											if isDay(fr, call.Common().Args[0]) {
+												return absPtr{"lunar", false}, true
+											}
+										case "calendar.(*Lunar).GetMonth", "calendar.(*Lunar).GetDay", "calendar.(*Lunar).GetJieQi":
+											o, ok := evalWith(fr, call.Common().Args[0], leaf)
+											if ptr, isP := o.(absPtr); ok && isP && ptr.tag == "lunar" {
+												switch call.Common().StaticCallee().Name() {
+												case "GetMonth":
+													return lm, true
+												case "GetDay":
+													return ld, true
+												default:
+													return jq, true
+												}
+											}
+										}
+									}
+									return nil, false
+								})
+								ev := &evaluator{leaf: leaf, inline: inlineLibrary}
+								res, outcome := ev.run(fn, nil, nil, nil, nil)
+								n++
+								want := int64(1)
+								switch {
+								case (sm == 1 && sd == 1) || (sm == 5 && sd == 1) || (sm == 10 && sd <= 3),
+									(lm == 1 && ld <= 3) || (lm == 5 && ld == 5) || (lm == 8 && ld == 15), jq == "清明":
+									want = 3
+								case !in.holNil && !in.isWork, in.holNil && (week == 0 || week == 6):
+									want = 2
+								}
+								if outcome != "return" || len(res) != 1 {
+									problems["the function could not be followed: "+outcome+" "+ev.fail] = true
+									continue
+								}
+								if res[0] != interface{}(want) {
+									problems[fmt.Sprintf("civil %d-%d, lunar %d-%d, term %q, record absent=%v IsWork=%v, weekday %d: rate %v, expected %d", sm, sd, lm, ld, jq, in.holNil, in.isWork, week, res[0], want)] = true
 								}
 							}
 						}
@@ -328,70 +539,13 @@ func r14_4(c *Ctx, r *Report) {
 				}
 			}
 		}
-		r.check(stepOK && lookupOK && countOK, rule, "calendar.(*Solar).Next walks one day at a time and counts working days", c.fnPos(fn), fmt.Sprintf("step is +1/-1: %v; looks up the stepped day itself: %v; counts only when work: %v", stepOK, lookupOK, countOK))
-		workRule(c, r, rule, fn, "calendar.(*Solar).Next")
 	}
-	if fn := c.Fn(r, rule, "calendar.(*Solar).GetSalaryRate"); fn != nil {
-		workRule(c, r, rule, fn, "calendar.(*Solar).GetSalaryRate")
-		// returned constants
-		var rets []int64
-		for _, b := range fn.Blocks {
-			for _, ins := range b.Instrs {
-				if ret, ok := ins.(*ssa.Return); ok && len(ret.Results) == 1 {
-					if k, ok := constInt(ret.Results[0]); ok {
-						rets = append(rets, k)
-					}
-				}
-			}
-		}
-		n3, n2, n1 := 0, 0, 0
-		for _, k := range rets {
-			switch k {
-			case 3:
-				n3++
-			case 2:
-				n2++
-			case 1:
-				n1++
-			}
-		}
-		r.check(n3 == 7 && n2 == 2 && n1 == 1 && len(rets) == 10, rule, "calendar.(*Solar).GetSalaryRate returns 3 for the seven statutory cases, 2 for the two day-off cases, 1 otherwise", c.fnPos(fn), fmt.Sprintf("returned constants %v", rets))
+	var ps []string
+	for k := range problems {
+		ps = append(ps, k)
 	}
-}
-
-// workRule: holiday == nil -> weekend test on {0,6}; else holiday.IsWork().
-func workRule(c *Ctx, r *Report, rule string, fn *ssa.Function, name string) {
-	nilTest, weekend, isWork := false, map[int64]bool{}, false
-	for _, b := range fn.Blocks {
-		for _, ins := range b.Instrs {
-			switch x := ins.(type) {
-			case *ssa.BinOp:
-				if x.Op == token.EQL || x.Op == token.NEQ {
-					isNil := func(v ssa.Value) bool { k, ok := v.(*ssa.Const); return ok && k.Value == nil }
-					isHol := func(v ssa.Value) bool {
-						call, ok := v.(*ssa.Call)
-						return ok && call.Common().StaticCallee() != nil && fname(call.Common().StaticCallee()) == "HolidayUtil.GetHolidayByYmd"
-					}
-					if (isNil(x.X) && isHol(x.Y)) || (isNil(x.Y) && isHol(x.X)) {
-						nilTest = true
-					}
-					for _, pr := range [][2]ssa.Value{{x.X, x.Y}, {x.Y, x.X}} {
-						if k, ok := constInt(pr[0]); ok && x.Op == token.EQL {
-							if call, ok := pr[1].(*ssa.Call); ok && call.Common().StaticCallee() != nil && call.Common().StaticCallee().Name() == "GetWeek" {
-								weekend[k] = true
-							}
-						}
-					}
-				}
-			case *ssa.Call:
-				if x.Common().StaticCallee() != nil && fname(x.Common().StaticCallee()) == "HolidayUtil.(*Holiday).IsWork" {
-					isWork = true
-				}
-			}
-		}
-	}
-	r.check(nilTest && len(weekend) == 2 && weekend[0] && weekend[6] && isWork, rule, name+" decides work from the record, else from the weekday {0,6}", c.fnPos(fn),
-		fmt.Sprintf("holiday == nil test: %v; weekend days tested: %v; IsWork consulted: %v", nilTest, weekend, isWork))
+	sort.Strings(ps)
+	r.check(len(ps) == 0 && n > 1000, rule, construct, c.fnPos(fn), fmt.Sprintf("%d abstract cases followed through the function; deviations: %v", n, headList(ps, 4)))
 }
 
 func r14_5(c *Ctx, r *Report) {
